@@ -5,6 +5,13 @@
 (*    (exported as JSON and replayed into the real code);                         *)
 (*  - MSort .. MFilter, UBegin .. UEnd, RBegin .. REnd run the implementation-    *)
 (*    shaped mechanisms of ArrayMatch.tla on the case, one action per code step;  *)
+(*  - ChooseReps attaches to every case NReps representations (element types of   *)
+(*    both arguments x placement in the types' ranges x byte orders x layouts,     *)
+(*    ArrayMatch!AMDesignRep) taken from a covering design: the representation     *)
+(*    numbers are spread by a multiplicative hash of the case, so that over the    *)
+(*    cases every admitted (type pair, placement), every (type, layout, order) of  *)
+(*    either argument and every pair of layouts occurs (the adapter verifies that  *)
+(*    against the DESIGN record printed below); RepDesignOK: each is admitted;     *)
 (*  - MechRefines: every finished mechanism run is accepted by the property-level *)
 (*    specification; RefAccepted / RefUnique: theorems about the property itself. *)
 EXTENDS ArrayMatch, Json
@@ -19,19 +26,27 @@ CONSTANTS MaxLen1,     \* first arrays of length 1..MaxLen1
           FVals,       \* flag values
           ClampMode,   \* "code" | "never"   (ArrayMatch!AMClamp)
           SeedSorted,  \* TRUE: unique() seeds from the smallest element (repaired); FALSE: from arr[0] (pinned)
+          ShardCount,  \* the case space is cut into ShardCount parts by the first array (exports run side by side);
+          ShardIndex,  \* this run enumerates part ShardIndex \in 0..ShardCount-1   (1, 0: everything)
+          NReps,       \* representations attached to every case (0: the mechanism runs do not need them)
           DoExport
 
 VARIABLES phase, c, st
 vars == <<phase, c, st>>
 
-NoCase == [kind |-> "none", a1 |-> <<>>, a2 |-> <<>>, f |-> <<>>]
+NoCase == [kind |-> "none", a1 |-> <<>>, a2 |-> <<>>, f |-> <<>>, reps |-> <<>>]
 Init == phase = "start" /\ c = NoCase /\ st = <<>>
 
 \* ---- enumeration -------------------------------------------------------------------
+\* a sequence as a number (all values are in 1..7)
+RECURSIVE SeqCode(_)
+SeqCode(s) == IF s = <<>> THEN 0 ELSE Head(s) + 8 * SeqCode(Tail(s))
+InShard(a) == VSum(a) % ShardCount = ShardIndex
+
 ChooseA1 ==
     /\ phase = "start"
     /\ \E n \in 1..MaxLen1 : \E a \in [1..n -> A1Vals] :
-          c' = [kind |-> "match", a1 |-> a, a2 |-> <<>>, f |-> <<>>]
+          InShard(a) /\ c' = [kind |-> "match", a1 |-> a, a2 |-> <<>>, f |-> <<>>, reps |-> <<>>]
     /\ phase' = "a1" /\ UNCHANGED st
 
 ChooseA2 ==
@@ -43,13 +58,29 @@ ChooseA2 ==
 ChooseArr ==
     /\ phase = "start"
     /\ \E n \in 1..MaxLenD : \E a \in [1..n -> DVals] :
-          c' = [kind |-> "dedup", a1 |-> a, a2 |-> <<>>, f |-> <<>>]
+          InShard(a) /\ c' = [kind |-> "dedup", a1 |-> a, a2 |-> <<>>, f |-> <<>>, reps |-> <<>>]
     /\ phase' = "arr" /\ UNCHANGED st
 
 ChooseFlags ==
     /\ phase = "arr"
     /\ \E g \in [1..Len(c.a1) -> FVals] : c' = [c EXCEPT !.f = g]
     /\ phase' = "dcase" /\ UNCHANGED st
+
+\* ---- representations: the covering design ------------------------------------------------
+\* the case as a number (digits of a1, then of a2 / f)
+ASSUME /\ MaxLen1 <= 5 /\ MaxLen2 <= 5 /\ MaxLenD <= 5 /\ NReps <= 32
+       /\ (A1Vals \cup A2Vals \cup DVals \cup FVals) \subseteq 1..7
+HashM == 999983                                           \* prime; (HashM - 1) * 2003 + 200 * 611953 < 2^31
+CaseHash(cc) == ((SeqCode(cc.a1) + 32768 * SeqCode(cc.a2 \o cc.f)) % HashM) * 2003
+RepNumber(cc, k) == (CaseHash(cc) + k * 611953) % HashM
+\* (the few cases of two one-element arrays carry the 9 x 9 scalar / container forms: six times as many)
+RepCount(cc) == IF cc.kind = "match" /\ Len(cc.a1) = 1 /\ Len(cc.a2) = 1 THEN 6 * NReps ELSE NReps
+DesignReps(cc) == [k \in 1..RepCount(cc) |-> AMDesignRep(cc, RepNumber(cc, k))]
+
+ChooseReps ==
+    /\ phase \in {"mcase", "dcase"} /\ NReps > 0
+    /\ c' = [c EXCEPT !.reps = DesignReps(c)]
+    /\ phase' = (IF phase = "mcase" THEN "mrep" ELSE "drep") /\ UNCHANGED st
 
 \* ---- match mechanism: one action per statement of numpy_util.match ------------------
 \* (both the sorter path and the presorted path when a1 happens to be sorted;
@@ -115,7 +146,7 @@ Next == ChooseA1 \/ ChooseA2 \/ ChooseArr \/ ChooseFlags
         \/ MSort \/ MGuard \/ MSearch \/ MClamp \/ MFilter
         \/ UBegin \/ UStep \/ UEnd \/ RBegin \/ RStep \/ REnd
 
-NextExport == ChooseA1 \/ ChooseA2 \/ ChooseArr \/ ChooseFlags
+NextExport == ChooseA1 \/ ChooseA2 \/ ChooseArr \/ ChooseFlags \/ ChooseReps
 Spec == Init /\ [][Next]_vars
 
 \* ---- properties ------------------------------------------------------------------------
@@ -156,6 +187,17 @@ RefDedup == phase = "dcase" =>
                   vals |-> [k \in DOMAIN MaxFlagIdx(c.a1, c.f) |-> c.a1[MaxFlagIdx(c.a1, c.f)[k] + 1]]])
     /\ Len(c.a1) > 1 => ~Accept(c, [fn |-> "unique", err |-> "none", i1 |-> FirstIdx(c.a1) \o <<0>>, i2 |-> <<>>, vals |-> <<>>])
 
+\* every representation the design attaches is admitted for its case
+RepDesignOK == phase \in {"mrep", "drep"} => \A k \in DOMAIN c.reps : AMRepOK(c, c.reps[k])
+
 \* ---- export ----------------------------------------------------------------------------
-Export == (DoExport /\ phase \in {"mcase", "dcase"}) => PrintT(<<"CASE", ToJson(c)>>)
+Export == (DoExport /\ phase \in {"mrep", "drep"}) => PrintT(<<"CASE", ToJson(c)>>)
+
+\* the admitted choices, for the adapter's covering guard (printed once per run)
+DesignRecord ==
+    [pairs  |-> UNION {UNION {{<<t1, t2, AMPairPlaces(t1, t2)[i]>> : i \in DOMAIN AMPairPlaces(t1, t2)}
+                              : t2 \in VRange(AMValueTypes)} : t1 \in VRange(AMValueTypes)},
+     values |-> VRange(AMValueTypes), flags |-> VRange(AMFlagTypes), places |-> VRange(AMBasicPlaces),
+     layouts |-> VRange(AMArrayLayouts), scalars |-> VRange(AMScalarLayouts) \cup {"list"}]
+ASSUME DoExport => PrintT(<<"DESIGN", ToJson(DesignRecord)>>)
 =============================================================================
